@@ -245,6 +245,13 @@ func (fc *FnCtx) execVarSpec(st *State, vs *ast.ValueSpec) {
 			if o == nil {
 				continue
 			}
+			if at, ok := o.Type().Underlying().(*types.Array); ok && fc.slicedLocals()[o] {
+				// a local array whose slice is taken (`buf[:]`): lives on the heap as a fresh zeroed
+				// backing array; the variable denotes the full slice over it
+				n := fc.idxLit(at.Len())
+				st.vars[o] = Val{T: fc.define("arr", fc.sliceSort(), fc.makeSlice(st, at.Elem(), n, n)), Ty: types.NewSlice(at.Elem())}
+				continue
+			}
 			st.vars[o] = fc.zero(o.Type())
 		}
 		return
@@ -1373,4 +1380,28 @@ func (fc *FnCtx) oldState() *State {
 		return fc.inlineOld
 	}
 	return fc.entry
+}
+
+// slicedLocals: local array variables of the current package that are sliced somewhere (they need an address).
+func (fc *FnCtx) slicedLocals() map[types.Object]bool {
+	if m, ok := fc.eng.slicedArr[fc.pkg.PkgPath]; ok {
+		return m
+	}
+	m := map[types.Object]bool{}
+	for _, f := range fc.pkg.Syntax {
+		ast.Inspect(f, func(n ast.Node) bool {
+			if se, ok := n.(*ast.SliceExpr); ok {
+				if id, ok := ast.Unparen(se.X).(*ast.Ident); ok {
+					if o := fc.info().ObjectOf(id); o != nil && o.Parent() != o.Pkg().Scope() {
+						if _, ok := o.Type().Underlying().(*types.Array); ok {
+							m[o] = true
+						}
+					}
+				}
+			}
+			return true
+		})
+	}
+	fc.eng.slicedArr[fc.pkg.PkgPath] = m
+	return m
 }
